@@ -1,0 +1,9 @@
+// +build verif
+
+// Lemma and composition harnesses for the rtv verifier (/verif). Compiled only with -tags verif.
+
+package reftable
+
+func vAssume(cond bool) {}
+
+func vAssert(cond bool, label string) {}
